@@ -1,8 +1,8 @@
-INIT MCInitQuick
+INIT MCInitEpochs
 NEXT Next
 CONSTANTS Configs = {}
   CountBasedCheck = FALSE
-  SkipEpochWithoutRow = FALSE
+  SkipEpochWithoutRow = TRUE
   LoadEveryEngine = FALSE
   LoadOnlyOwnTargets = FALSE
 INVARIANT ImportFaithful
